@@ -5,6 +5,8 @@
 #include "vkeys.h"
 #include <atomic>
 #include <thread>
+#include <pthread.h>
+#include <unistd.h>
 #include <chrono>
 using namespace v;
 
@@ -52,14 +54,49 @@ static std::vector<std::string> run_script(const Script &s, bool concurrent) {
   return tr;
 }
 
+// ---- threads with a small stack (pthread_attr_setstacksize) and long tokens: a worker thread is not the main thread; what the calls
+// need on the stack must not depend on the length of the token. The same calls are first made one after another on the main thread.
+static std::vector<std::string> BIG_VALID, BIG_BAD; static std::vector<int> BIG_KEY; static std::vector<size_t> BIG_N;
+static std::vector<std::string> run_big(size_t i) {
+  std::vector<std::string> tr; const KeyUse &k = KU[BIG_KEY[i]];
+  jwt_builder_t *b = jwt_builder_new(); jwt_checker_t *c = jwt_checker_new();
+  jwt_checker_setkey(c, k.alg, k.pub);
+  int r = jwt_checker_verify(c, BIG_VALID[i].c_str()); tr.push_back("verify-valid:" + std::to_string(r ? 1 : 0));
+  r = jwt_checker_verify(c, BIG_BAD[i].c_str()); tr.push_back("verify-bad:" + std::to_string(r ? 1 : 0));
+  jwt_builder_setkey(b, k.alg, k.priv); std::string big(BIG_N[i], 'x'); jwt_value_t v = val_str("big", big.c_str(), 1); jwt_builder_claim_set(b, &v); jwt_builder_enable_iat(b, 0);
+  char *t = jwt_builder_generate(b); tr.push_back("gen:" + norm(*k.ks, k.alg, t)); free(t);
+  jwt_builder_free(b); jwt_checker_free(c);
+  return tr;
+}
+struct SsArg { size_t i; std::vector<std::string> got; };
+static void *ss_thread(void *p) { SsArg *x = (SsArg *)p; x->got = run_big(x->i); return nullptr; }
+static size_t SS_LAST = 0;
+static size_t small_stack_bytes() { const char *e = getenv("VERIF_C18_STACK"); return e ? (size_t)atol(e) : 64 * 1024; }
+// returns "" or a description of the first difference; a thread that overruns its stack kills the process (the case is in <out>.cur)
+static std::string small_stack_round(int prov, size_t first, size_t step) {
+  for (size_t i0 = first; i0 < BIG_VALID.size(); i0 += step) {
+    SS_LAST = i0; size_t nt = 3; std::vector<SsArg> args(nt); std::vector<std::vector<std::string>> expect(nt);
+    for (size_t t = 0; t < nt; t++) { args[t].i = (i0 + t * 7) % BIG_VALID.size(); expect[t] = run_big(args[t].i); }
+    { FILE *f = fopen((stats().out_path + ".cur").c_str(), "w"); if (f) { std::string cj = with_env("{\"kind\":\"small-stack\",\"prov\":" + std::to_string(prov) + ",\"index\":" + std::to_string(i0) + ",\"stack_bytes\":" + std::to_string(small_stack_bytes()) + ",\"claim_bytes\":" + std::to_string(BIG_N[i0]) + ",\"alg\":" + jstr(jwt_alg_str(KU[BIG_KEY[i0]].alg)) + "}"); fputs(cj.c_str(), f); fclose(f); } }
+    pthread_attr_t at; pthread_attr_init(&at); pthread_attr_setstacksize(&at, small_stack_bytes());
+    std::vector<pthread_t> th(nt); for (size_t t = 0; t < nt; t++) if (pthread_create(&th[t], &at, ss_thread, &args[t])) { pthread_attr_destroy(&at); return ""; }
+    for (size_t t = 0; t < nt; t++) pthread_join(th[t], nullptr);
+    pthread_attr_destroy(&at); unlink((stats().out_path + ".cur").c_str());
+    stats().evaluations++; stats().cls("small-stack-rounds"); stats().nontrivial(mix(mix(0x55, prov), i0));
+    for (size_t t = 0; t < nt; t++) if (args[t].got != expect[t]) return "index " + std::to_string(args[t].i) + ": " + (args[t].got.empty() ? "" : args[t].got[0]) + " vs " + (expect[t].empty() ? "" : expect[t][0]);
+  }
+  return "";
+}
+
 int main(int argc, char **argv) {
   Args a = parse_args(argc, argv);
   // replay of a transcript mismatch: the same provider, seed, worker and rounds up to the one that differed (schedules are sampled
   // again; a difference that depends on the provider, the keys or the first-call state shows again, a rare interleaving may not)
-  int replay_rounds = -1;
-  if (!a.replay.empty()) { J j = J::parse(read_file(a.replay)); if (!j || !json_object_get(j.p, "round")) return 0;
-    a.seed = (uint64_t)json_integer_value(json_object_get(j.p, "seed")); a.worker = (int)json_integer_value(json_object_get(j.p, "worker")); a.kv["prov"] = std::to_string((int)json_integer_value(json_object_get(j.p, "prov")));
-    replay_rounds = (int)json_integer_value(json_object_get(j.p, "round")) + 1; if (json_is_true(json_object_get(j.p, "thorough"))) a.tier = "thorough"; }
+  int replay_rounds = -1, replay_small = -1;
+  if (!a.replay.empty()) { J j = J::parse(read_file(a.replay)); if (!j || (!json_object_get(j.p, "round") && !json_object_get(j.p, "kind"))) return 0;
+    if (json_object_get(j.p, "seed")) a.seed = (uint64_t)json_integer_value(json_object_get(j.p, "seed")); if (json_object_get(j.p, "worker")) a.worker = (int)json_integer_value(json_object_get(j.p, "worker")); a.kv["prov"] = std::to_string((int)json_integer_value(json_object_get(j.p, "prov")));
+    if (json_object_get(j.p, "kind")) { replay_small = (int)json_integer_value(json_object_get(j.p, "index")); a.kv["prov"] = std::to_string((int)json_integer_value(json_object_get(j.p, "prov"))); }
+    else replay_rounds = (int)json_integer_value(json_object_get(j.p, "round")) + 1; if (json_is_true(json_object_get(j.p, "thorough"))) a.tier = "thorough"; }
   int prov = a.kv.count("prov") ? atoi(a.kv["prov"].c_str()) : a.worker % 2;
   set_provider(prov); set_now(1700000000);
   Pool pool = standard_pool();
@@ -82,6 +119,12 @@ int main(int argc, char **argv) {
     std::string bad = good; bad[bad.size() - 3] = bad[bad.size() - 3] == 'A' ? 'B' : 'A'; PRETOK_BAD.push_back(bad);
     PRETOK_EXPIRED.push_back(ref_token(ks, kds[i].alg, h, "{\"sub\":\"t\",\"exp\":1600000000}")); }
   Stats &st = stats();
+  // long tokens for the small-stack part: payload segments of about 4k, 16k, 60k, 64k-1, 64k+, 128k, 1M characters, for every key
+  { static const size_t NS[] = {3000, 12200, 45000, 49100, 49200, 98300, 786000};
+    for (size_t ki = 0; ki < KU.size(); ki++) for (size_t n : NS) { if (n > 100000 && !(a.thorough() && ki < 3)) continue; if (prov == 1 && KU[ki].alg == JWT_ALG_ES256K) continue;
+      std::string h = std::string("{\"alg\":\"") + jwt_alg_str(KU[ki].alg) + "\",\"typ\":\"JWT\"}", good = ref_token(*KU[ki].ks, KU[ki].alg, h, "{\"sub\":\"t\",\"exp\":1800000000,\"big\":\"" + std::string(n, 'y') + "\"}");
+      std::string bad = good; bad[bad.size() - 3] = bad[bad.size() - 3] == 'A' ? 'B' : 'A'; BIG_VALID.push_back(good); BIG_BAD.push_back(bad); BIG_KEY.push_back((int)ki); BIG_N.push_back(n); } }
+  if (replay_small >= 0) { std::string r = small_stack_round(prov, (size_t)replay_small, BIG_VALID.size()); if (!r.empty()) fprintf(stderr, "replay: %s\n", r.c_str()); jwks_free(set); return r.empty() ? 0 : 3; }
   int rounds = a.thorough() ? 400 : 5; if (a.kv.count("rounds")) rounds = atoi(a.kv["rounds"].c_str());
   if (replay_rounds > 0) rounds = std::max(replay_rounds, 3);
   int opsper = a.thorough() ? 40 : 24;
@@ -120,7 +163,11 @@ int main(int argc, char **argv) {
     }
     if (st.want_sample()) st.sample("{\"prov\":" + std::to_string(prov) + ",\"threads\":" + std::to_string(nt) + ",\"ops_per_thread\":" + std::to_string(opsper) + ",\"overlapping_calls\":" + std::to_string(ov) + ",\"first_ops\":" + jstr(expect[0].empty() ? "" : expect[0][0].substr(0, 80)) + "}");
   }
-  st.extra["provider"] = jstr(prov_name(prov)); st.extra["library_calls_made_concurrently"] = std::to_string(g_calls.load());
+  if (st.violations.empty() && replay_rounds < 0) {   // every worker takes its share of the long tokens
+    std::string r = small_stack_round(prov, (size_t)(a.worker / 2) % BIG_VALID.size(), (size_t)std::max(1, a.nworkers / 2));
+    if (!r.empty()) st.violation("C18:small-stack-thread-result-differs-from-sequential", "threads with a " + std::to_string(small_stack_bytes()) + "-byte stack obtained a different result than the same calls on the main thread: " + r, "{\"kind\":\"small-stack\",\"prov\":" + std::to_string(prov) + ",\"index\":" + std::to_string(SS_LAST) + "}");
+  }
+  st.extra["provider"] = jstr(prov_name(prov)); st.extra["small_stack_bytes"] = std::to_string(small_stack_bytes()); st.extra["library_calls_made_concurrently"] = std::to_string(g_calls.load());
   jwks_free(set);
   return finish();
 }
